@@ -6,6 +6,11 @@ contexts) through the specification and prints the expected observation (print e
 terminal status). Each program is rendered to Sylt source, compiled by the real compiler, the emitted Lua is run
 in minilua, and the observed trace must equal the specified one.
 
+Further dimensions that are no pairwise nestings (spec/MC_SemX.tla, same procedure: TLC runs SyltSem, the real tool chain
+must show the same trace): SyltLimits - literal arithmetic at the numeric limits (64-bit wrap-around, overflow to an
+infinity, NaN, -0.0; literals only / through variables / as a global / negated / compound assignment, one and two levels
+deep); SyltNestSelf - blob literals nested in methods of blob literals: whose `self` a field initialiser of every shape sees.
+
 Second direction (trace validation, docs/C01-corpus.md): programs that were NOT generated from the specification - the
 maintainers' own programs under /repo/tests - are compiled from disk by the real compiler and run in minilua; the
 harness (c01c) records [file, program as the real parser read it in SyltAst convention, printed lines, terminal
@@ -67,14 +72,87 @@ def replay_cases(wd, cases, ev, verdicts, name, pid=PID, env=None):
         v = res["verdict"]
         counts[v] = counts.get(v, 0) + 1
         case = cases[res["i"]]
-        if v == "tool":
-            vlib.tool_error("minilua does not support something the chunk used: %s" % str(res.get("got"))[:300])
-        if v in ("mismatch", "load_error", "panic"):
+        # "unsupported": the emitted chunk uses something minilua does not provide. What the compiler emits is data: the
+        # unchanged compiler emits nothing of the kind for any program of the universe, so this is a deviation to report
+        if v in ("mismatch", "load_error", "panic", "unsupported"):
             verdicts.add(signature(pid, case, res),
                          "%s: want %s got %s" % (v, str(res.get("want"))[:160], str(res.get("got", res.get("error")))[:200]),
                          {"id": case["id"], "tops": case["tops"], "out": case["out"], "status": case["status"],
                           "result": {k: res[k] for k in res if k != "source"}, "source": res.get("source")})
     return results, counts
+
+
+# --------------------------------------------------------------------------- dimensions beyond pairwise nesting
+
+EXTRA_FAMILIES = ("lim-d1-int", "lim-d1-float", "lim-d2-int", "lim-d2-float", "lim-ctx-int", "lim-ctx-float", "lim-lit-float",
+                  "ns-direct", "ns-local", "ns-closure", "ns-deep")
+
+
+def extra_tlc(wd):
+    # few programs, some of them long: 4 workers are enough (the pairwise run goes on at the same time)
+    return vlib.tlc("MC_SemX", wd=wd, env={"MODE": "extra"}, timeout=2400, xmx="3g", workers=4, coverage=False)
+
+
+def extra_phase(ctx, wd, ev, verdicts, r):
+    """SyltLimits + SyltNestSelf: TLC has run every program through SyltSem (r); replay them into the real tool chain."""
+    vlib.require_tlc_ok(r, "SyltSem over the numeric-limits and nested-self universes")
+    cases = collect(r)
+    by_family = {}
+    for c in cases:
+        by_family.setdefault(c["id"]["o"], []).append(c)
+    missing = [f for f in EXTRA_FAMILIES if len(by_family.get(f, [])) < 5]
+    if missing or len(cases) < 1800:
+        vlib.tool_error("vacuity: numeric-limits / nested-self universe too small (%d programs; thin families %s)" % (len(cases), missing))
+    results, counts = replay_cases(wd, cases, ev, verdicts, "extra")
+    judged = {}
+    limit_values = {"i64": 0, "inf": 0, "-inf": 0, "nan": 0, "-0.0": 0, "fbig": 0}
+
+    def count_limit(v):
+        if v.get("k") == "i64":
+            limit_values["i64"] += 1
+        elif v.get("k") == "fx":
+            limit_values[v["text"]] += 1
+        elif v.get("k") == "fbig":
+            limit_values["fbig"] += 1
+        for x in v.get("es", []) if isinstance(v.get("es"), list) else []:
+            count_limit(x)
+    for res in results:
+        c = cases[res["i"]]
+        if res["verdict"] != "dropped":
+            judged[c["id"]["o"]] = judged.get(c["id"]["o"], 0) + 1
+            for e in c["out"]:
+                count_limit(e["v"])
+    rejected = counts.get("rejected", 0)
+    if rejected > 0.2 * len(cases):
+        vlib.tool_error("vacuity: %d of %d programs of the numeric-limits / nested-self universes are rejected by the compiler" % (rejected, len(cases)))
+    thin = [f for f in EXTRA_FAMILIES if judged.get(f, 0) < 5]
+    # every kind of limit value must actually be among the expected observations, or the dimension explores nothing
+    absent = [k for k, n in limit_values.items() if n == 0]
+    if thin or absent:
+        vlib.tool_error("vacuity: numeric-limits / nested-self families hardly judged %s, limit values never expected %s" % (thin, absent))
+
+    # negative control: an expected trace with its last event dropped must be reported as a mismatch
+    neg = []
+    for fam in EXTRA_FAMILIES:
+        for c in by_family[fam][:25]:
+            if len(c["out"]) >= 1 and not c["status"].startswith("drop"):
+                d = dict(c)
+                d["out"] = c["out"][:-1]
+                neg.append(d)
+    nv = vlib.Verdicts(PID, control=True)
+    nv.known = []
+    _, ncounts = replay_cases(wd, neg, ev, nv, "extra-neg")
+    if ncounts.get("mismatch", 0) != len(neg):
+        vlib.tool_error("negative control (numeric limits / nested self): %d of %d corrupted traces were accepted" % (
+            len(neg) - ncounts.get("mismatch", 0), len(neg)))
+    n_run = sum(counts.get(v, 0) for v in ("ok", "mismatch", "load_error", "unsupported", "panic"))
+    ev.set(extra={"programs": len(cases), "by_family": {f: len(by_family[f]) for f in EXTRA_FAMILIES}, "judged_by_family": judged,
+                  "verdict_counts": counts, "print_events": sum(len(c["out"]) for c in cases),
+                  "expected_limit_values": limit_values, "negative_controls_rejected": len(neg),
+                  "tlc_states": r.distinct, "tlc_wall_s": round(r.wall_s, 1),
+                  "samples": [{"id": c["id"], "expected_prints": len(c["out"]), "status": c["status"]}
+                              for c in (by_family["lim-d1-int"][:1] + by_family["lim-d2-float"][:1] + by_family["ns-deep"][:1])]})
+    return n_run, len(neg), len(cases)
 
 
 # --------------------------------------------------------------------------- corpus trace validation
@@ -139,9 +217,19 @@ def probe_phase(ctx, wd, ev, verdicts):
     rf = os.path.join(wd, "probe-records.ndjson")
     vlib.harness("c01c", ["record", PROBE_DIR, rf])
     recs = vlib.read_ndjson(rf)
-    bad = [r["file"] for r in recs if not (r["accepted"] and r["in_model"])]
-    if bad or not recs:
-        vlib.tool_error("probe programs not accepted by the compiler / outside the model: %s" % bad)
+    # a probe the compiler does not translate (it translates every one of them on the unchanged tree) is what the
+    # implementation did with a well-typed program: data for a verdict, not a tool error
+    for r in recs:
+        if not r["accepted"]:
+            verdicts.add("%s|probe|%s|not-compiled" % (PID, r["file"]),
+                         "probe %s (a well-typed program) was not compiled: %s" % (r["file"], str(r.get("detail"))[:200]),
+                         {"probe": {"file": r["file"]}, "detail": r.get("detail")})
+    recs = [r for r in recs if r["accepted"]]
+    bad = [r["file"] for r in recs if not r["in_model"]]
+    if bad or (not recs and not verdicts.violations):
+        vlib.tool_error("probe programs outside the model: %s" % bad)
+    if not recs:
+        return 0
     _, vs = run_trace(wd, "probes", [trace_record(x) for x in recs])
     n = 0
     for rec, (tag, p) in zip(recs, vs):
@@ -306,7 +394,12 @@ def run(ctx):
         return verdicts.finish()
 
     # no -coverage here: cost instrumentation of the deeply recursive evaluator slows TLC down ~50x
+    from concurrent.futures import ThreadPoolExecutor
+    pool = ThreadPoolExecutor(max_workers=1)
+    extra_future = pool.submit(extra_tlc, wd)        # the small universes run beside the big one
     r = vlib.tlc("MC_Sem", wd=wd, env={"MODE": "pairs"}, timeout=2400, xmx="16g", workers=10, coverage=False)
+    rx = extra_future.result()
+    pool.shutdown()
     vlib.require_tlc_ok(r, "SyltSem over the pairwise-nesting universe")
     cases = collect(r)
     if len(cases) < 5000 or r.depth < 10:
@@ -337,18 +430,25 @@ def run(ctx):
     if ncounts.get("mismatch", 0) != len(neg):
         vlib.tool_error("negative control: %d of %d corrupted traces were accepted" % (len(neg) - ncounts.get("mismatch", 0), len(neg)))
 
+    n_extra, n_extra_neg, n_extra_cases = extra_phase(ctx, wd, ev, verdicts, rx)
     n_corpus, n_corpus_neg = corpus_phase(ctx, wd, ev, verdicts)
     n_corpus += probe_phase(ctx, wd, ev, verdicts)
 
-    ev.set(traces_validated_against_impl=n_run + n_corpus, programs=len(cases), evaluations=len(cases),
-           distinct_nontrivial=len(cases), verdict_counts=counts, constructs=len(constructs),
-           rejected_by_compiler=rejected, negative_controls_rejected=len(neg) + n_corpus_neg, exhaustive=True,
+    ev.set(traces_validated_against_impl=n_run + n_extra + n_corpus, programs=len(cases) + n_extra_cases,
+           evaluations=len(cases) + n_extra_cases,
+           distinct_nontrivial=len(cases) + n_extra_cases, verdict_counts=counts, constructs=len(constructs),
+           rejected_by_compiler=rejected, negative_controls_rejected=len(neg) + n_extra_neg + n_corpus_neg, exhaustive=True,
+           states=r.distinct + rx.distinct, transitions=r.generated + rx.generated,
            known_findings_hit=verdicts.known_hits,
            rule="every program of SyltGen's pairwise-nesting universe (outer construct x hole x inner construct x default "
-                "fillers x harness context), distinct by AST hash; all are non-trivial (each prints >= 2 events)",
+                "fillers x harness context), distinct by AST hash; all are non-trivial (each prints >= 2 events); plus every "
+                "program of SyltLimits (atom x operator x atom, one and two levels, every form) and SyltNestSelf (context x field "
+                "shape x use of self)",
            samples=[{"id": c["id"], "expected_prints": len(c["out"]), "status": c["status"]} for c in cases[:2] + cases[len(cases) // 2:len(cases) // 2 + 2]])
     ev.assume("minilua stands in for Lua 5.3 (no Lua interpreter exists in the sandbox)",
-              "numbers: |n| < 10^6, floats are dyadic rationals; programs outside the model are dropped, never judged",
+              "numbers: |n| < 10^6, floats are dyadic rationals, plus (SyltLimits) 64-bit ints modulo 2^64 and the doubles m * 2^x "
+              "with |m| < 10^6, the infinities, NaN and -0.0; programs outside the model (a float result that would be rounded, "
+              "a division by zero) are dropped, never judged; the sign a NaN is printed with is not compared",
               "a generated program the compiler rejects is counted, not reported (no listed property promises completeness)",
               "corpus direction: the converter from the real parser's AST to SyltAst (lexical scoping, module flattening, std names) is trusted "
               "to preserve the program; programs using constructs or library functions SyltSem does not evaluate are counted, never judged")
